@@ -185,6 +185,11 @@ func fullName(f *ssa.Function) string {
 	return f.String()
 }
 
+// InRepo2 reports whether a package-level variable belongs to the repository.
+func InRepo2(g *ssa.Global) bool {
+	return g.Pkg != nil && g.Pkg.Pkg != nil && strings.HasPrefix(g.Pkg.Pkg.Path(), Module)
+}
+
 // StaticRepoCallee returns the repository function statically called, or nil.
 func StaticRepoCallee(c *ssa.CallCommon) *ssa.Function {
 	f := c.StaticCallee()
@@ -1012,7 +1017,101 @@ func (b *Builder) CallTermAt(ci ssa.CallInstruction) *Term {
 	return b.callTerm(ci.Value(), ci.Common(), 0)
 }
 
+// ConstGlobal returns the initial value term of an unexported package-level
+// variable of the repository that is written exactly once, by its package
+// initialiser with a value built from constants, and is never the target of a
+// store or possibly-mutating call elsewhere — a named constant in all but
+// syntax. Loads of such a variable are replaced by that term, so renaming it,
+// or turning it into a const / literal, does not change any term. nil otherwise.
+func (p *Prog) ConstGlobal(g *ssa.Global) *Term {
+	if !p.cgDone {
+		p.cgDone = true
+		p.constGlobals = map[*ssa.Global]*Term{}
+		type info struct {
+			initStore *ssa.Store
+			initFn    *ssa.Function
+			writes    int
+		}
+		infos := map[*ssa.Global]*info{}
+		for _, fn := range p.RepoFuncs("") {
+			fb := NewBuilder(p, fn)
+			isInit := fn.Synthetic == "package initializer"
+			for _, blk := range fn.Blocks {
+				for _, ins := range blk.Instrs {
+					switch x := ins.(type) {
+					case *ssa.Store:
+						root := fb.Root(x.Addr)
+						gg, ok := root.(*ssa.Global)
+						if !ok {
+							if ld, isLd := root.(*ssa.UnOp); isLd && ld.Op == token.MUL {
+								gg, ok = fb.Root(ld.X).(*ssa.Global)
+							}
+						}
+						if !ok {
+							continue
+						}
+						in := infos[gg]
+						if in == nil {
+							in = &info{}
+							infos[gg] = in
+						}
+						in.writes++
+						if isInit && x.Addr == ssa.Value(gg) {
+							in.initStore, in.initFn = x, fn
+						}
+					case ssa.CallInstruction:
+						cc := x.Common()
+						for i, a := range cc.Args {
+							root := fb.Root(a)
+							gg, ok := root.(*ssa.Global)
+							if !ok {
+								if ld, isLd := root.(*ssa.UnOp); isLd && ld.Op == token.MUL {
+									gg, ok = fb.Root(ld.X).(*ssa.Global)
+								}
+							}
+							if ok && fb.MayMutateOperand(cc, i) {
+								in := infos[gg]
+								if in == nil {
+									in = &info{}
+									infos[gg] = in
+								}
+								in.writes += 2
+							}
+						}
+					}
+				}
+			}
+		}
+		for gg, in := range infos {
+			if in.writes != 1 || in.initStore == nil || !InRepo(in.initFn) || token.IsExported(gg.Name()) {
+				continue
+			}
+			t := NewBuilder(p, in.initFn).Of(in.initStore.Val, in.initStore)
+			// only plain values: constants, byte-slice literals, big integers made from constants — not objects with an
+			// identity of their own (compiled regexps, tables built by a function, curve points)
+			if len(t.String()) > 160 || t.Contains(func(s *Term) bool {
+				switch s.Op {
+				case "const", "slice", "obj", "alloc", "store", "iaddr", "self", "none", "conv":
+					return false
+				case "call":
+					return !(s.Name == "math/big.NewInt" || s.Name == "(*math/big.Int).SetUint64" || s.Name == "(*math/big.Int).SetInt64")
+				}
+				return true
+			}) {
+				continue
+			}
+			p.constGlobals[gg] = t
+		}
+	}
+	return p.constGlobals[g]
+}
+
 func (b *Builder) load(x *ssa.UnOp, at ssa.Instruction, depth int) *Term {
+	if g, ok := x.X.(*ssa.Global); ok && InRepo2(g) {
+		if t := b.P.ConstGlobal(g); t != nil {
+			return t
+		}
+	}
 	// a local cell with a single store behaves like the stored value
 	if a, ok := x.X.(*ssa.Alloc); ok {
 		if s := singleStore(a); s != nil {
